@@ -204,6 +204,22 @@ def build(spec, cls=None):
         if vs['mask'] != 'none':
             kw['fill_value'] = vs['fill']
         tc = 'c' if vs['dtype'] == 'S1' else np.dtype(vs['dtype']).char
+        if spec.get('sized_typecodes') and vs['dtype'] != 'S1':
+            # the type given as a sized string ('f8', 'i2', ...), as numpy
+            # users write it
+            tc = vs['dtype']
+        if spec.get('values_kw') and vs['mask'] != 'none' and \
+                vs['dtype'] != 'S1':
+            # created from a masked array (which carries numpy's own fill
+            # value) with the missing code as an attribute
+            var = f.createVariable(
+                vs['name'], tc, tuple(vs['dims']),
+                values=np.ma.masked_array(np.ma.getdata(vals),
+                                          mask=np.ma.getmaskarray(vals)),
+                missing_value=np.dtype(vs['dtype']).type(vs['fill']))
+            for k, v in vs['attrs']:
+                setattr(var, k, attr_value(v))
+            continue
         var = f.createVariable(vs['name'], tc, tuple(vs['dims']), **kw)
         for k, v in vs['attrs']:
             setattr(var, k, attr_value(v))
